@@ -80,8 +80,9 @@ PROPS.update({
 RULE_CONFIG = ("config: the real memcrsd binary (built from /repo's working tree) is started as a child process under {current-thread, multi-thread} x threads {1,2,8} x "
                "eviction {none, random 64 MiB} with varying --item-size-limit, --connection-limit and --port; every configuration is driven with the same generated "
                "single-connection programs (fresh process per program), whose response bytes are compared with the Lean model and with every other configuration; "
-               "probes: body = limit accepted and limit+1 refused with 'too large', exactly --connection-limit of limit+2 simultaneous connections served, an item with TTL 4 s "
-               "hit after 2.3 s and gone after 5.7 s of real time.")
+               "probes: body = limit accepted and limit+1 refused with 'too large' (also for a limit above 1 MiB that is not a whole KiB), exactly --connection-limit of limit+2 "
+               "simultaneous connections served, --memory-limit in several spellings (half the limit in fresh records all kept, after twice the limit the survivors fit "
+               "limit + one record), an item with TTL 6 s hit after 3.3 s and gone 1.25 s after a 5 s SIGSTOP of the server.")
 
 RULE_SCHED = ("sched: 2-3 real client threads, each issuing 1-2 commands on one key through BinaryHandler/MemcStore over a gate-controlled Cache: a schedule grants one "
               "trait call at a time (get_by_key, check_if_expired, set, delete, flush). For every generated (initial state absent/present/present-but-expired x programs) "
@@ -95,7 +96,10 @@ RULE_STREAM = ("codec/conn: pipelined request streams (standard loud and quiet c
                "invalid-header tail) are cut into consecutive reads: every single cut (or a directed sample around header and frame boundaries), "
                "pairs of cuts, random cuts and byte-at-a-time; each segmentation is fed to the real Decoder on a caller-owned BytesMut (codec) "
                "and to a real MemcacheTcpServer over loopback with enforced read boundaries (conn), and to the Lean model. Distinct = distinct "
-               "(frame kind, opcode) sequences of the streams.")
+               "(frame kind, opcode) sequences of the streams. Fixed cases of the conn level, by profile: large response read 1.6 s late, value sizes "
+               "around 4/64/128 KiB, bodies of limit-0/1/23/24/25 under limits 20000 and 65536 (limit-edge), clients that half-close without reading, "
+               "a sender stalling inside an oversized body beyond and within the idle timeout, a reset behind quit/quitq, a client sending only quiet "
+               "commands every 400 ms under a 2 s idle timeout, and `tcase` arrival plans in real time compared with the timed model.")
 
 RULE = ("seq: programs of 5-40 commands over 1-6 colliding keys generated from the protocol vocabulary (pools of keys, binary and decimal "
         "values, flags, TTLs, boundary-directed clock advances, CAS tokens learnt from the implementation's own acknowledgements); "
